@@ -358,39 +358,39 @@ c09_range_q! {c09_range_i8, i8}
 c09_range_q! {c09_range_u32, u32}
 c09_range_q! {c09_range_i128, i128}
 c09_range_q! {c09_range_usize, usize}
-c09_range_t! {c09_range_u16, u16}
-c09_range_t! {c09_range_u64, u64}
-c09_range_t! {c09_range_u128, u128}
-c09_range_t! {c09_range_i16, i16}
-c09_range_t! {c09_range_i32, i32}
-c09_range_t! {c09_range_i64, i64}
-c09_range_t! {c09_range_isize, isize}
+c09_range_q! {c09_range_u16, u16}
+c09_range_q! {c09_range_u64, u64}
+c09_range_q! {c09_range_u128, u128}
+c09_range_q! {c09_range_i16, i16}
+c09_range_q! {c09_range_i32, i32}
+c09_range_q! {c09_range_i64, i64}
+c09_range_q! {c09_range_isize, isize}
 
 c09_rangeinc_q! {c09_rangeinc_u8, u8}
 c09_rangeinc_q! {c09_rangeinc_i8, i8}
 c09_rangeinc_q! {c09_rangeinc_u32, u32}
 c09_rangeinc_q! {c09_rangeinc_i128, i128}
 c09_rangeinc_q! {c09_rangeinc_usize, usize}
-c09_rangeinc_t! {c09_rangeinc_u16, u16}
-c09_rangeinc_t! {c09_rangeinc_u64, u64}
-c09_rangeinc_t! {c09_rangeinc_u128, u128}
-c09_rangeinc_t! {c09_rangeinc_i16, i16}
-c09_rangeinc_t! {c09_rangeinc_i32, i32}
-c09_rangeinc_t! {c09_rangeinc_i64, i64}
-c09_rangeinc_t! {c09_rangeinc_isize, isize}
+c09_rangeinc_q! {c09_rangeinc_u16, u16}
+c09_rangeinc_q! {c09_rangeinc_u64, u64}
+c09_rangeinc_q! {c09_rangeinc_u128, u128}
+c09_rangeinc_q! {c09_rangeinc_i16, i16}
+c09_rangeinc_q! {c09_rangeinc_i32, i32}
+c09_rangeinc_q! {c09_rangeinc_i64, i64}
+c09_rangeinc_q! {c09_rangeinc_isize, isize}
 
 c09_rangefrom_q! {c09_rangefrom_u8, u8}
 c09_rangefrom_q! {c09_rangefrom_i8, i8}
 c09_rangefrom_q! {c09_rangefrom_u32, u32}
 c09_rangefrom_q! {c09_rangefrom_i128, i128}
 c09_rangefrom_q! {c09_rangefrom_usize, usize}
-c09_rangefrom_t! {c09_rangefrom_u16, u16}
-c09_rangefrom_t! {c09_rangefrom_u64, u64}
-c09_rangefrom_t! {c09_rangefrom_u128, u128}
-c09_rangefrom_t! {c09_rangefrom_i16, i16}
-c09_rangefrom_t! {c09_rangefrom_i32, i32}
-c09_rangefrom_t! {c09_rangefrom_i64, i64}
-c09_rangefrom_t! {c09_rangefrom_isize, isize}
+c09_rangefrom_q! {c09_rangefrom_u16, u16}
+c09_rangefrom_q! {c09_rangefrom_u64, u64}
+c09_rangefrom_q! {c09_rangefrom_u128, u128}
+c09_rangefrom_q! {c09_rangefrom_i16, i16}
+c09_rangefrom_q! {c09_rangefrom_i32, i32}
+c09_rangefrom_q! {c09_rangefrom_i64, i64}
+c09_rangefrom_q! {c09_rangefrom_isize, isize}
 
 c09_mixed_q! {c09_mixed_u8, u8}
 c09_mixed_q! {c09_mixed_i8, i8}
